@@ -77,6 +77,17 @@ CHECKS = {
             "spaces; two-instruction programs; and all 24 unprivileged load/store encodings in 7 privileged modes "
             "against 4 region permissions.",
             "Invariant only; same leaf/pattern bounds as C18.", "3 C19"),
+    "C01": ("product enumeration of generated instruction instances per encoding row, each stepped on the real "
+            "emulator and the whole post-state compared with an independent reference model (pseudocode transcription)",
+            "For each of the 153 data-processing encoding rows (A1/A2/T1..T4; immediate, register, register-shifted "
+            "register, SP and ADR/MOVW/MOVT forms) the check generates instruction words from the row's bit pattern for "
+            "every combination of register-field patterns (Rd=Rn, Rd=Rm, SP/LR/PC roles, high registers), S, shift type, "
+            "shift amounts, modified-immediate alphabet, operand pairs from a boundary alphabet, carry-in, flag "
+            "background, IT position, mode and (for PC writes) architecture version 4..7; every instance is fetched "
+            "and stepped and the full snapshot (all registers, banks, system registers, memory) must equal the model's "
+            "prediction.",
+            "Trusted: armmc/ref (bv, state, rows_dp) - hand transcription of DDI 0406C. 32-bit operand values from an "
+            "alphabet; cond=AL (C05 covers conditions); UNPREDICTABLE instances not generated.", "3 C01"),
 }
 NOT_YET = "check not built yet in this round (see DESIGN.md section 3 for the planned bounded-exhaustive formulation)"
 
